@@ -17,6 +17,9 @@ import (
 
 // encU renders a Go value of the four kinds (and pointers to them) as the driver's value token.
 func encU(v any) string {
+	if v == nil {
+		return "n"
+	}
 	switch x := v.(type) {
 	case string:
 		return hexs(x)
@@ -219,6 +222,9 @@ func customOwU(k int, v any) any {
 }
 
 func customTrU(k int, v any) any {
+	if k == 105 || v == nil {
+		return nil
+	}
 	switch x := plain(v).(type) {
 	case string:
 		switch k {
@@ -290,7 +296,7 @@ func trChoices(kind string) []struct {
 	same := []struct {
 		k   int
 		out string
-	}{{0, kind}, {1, kind}, {2, kind}}
+	}{{0, kind}, {1, kind}, {2, kind}, {105, "n"}}
 	switch kind {
 	case "s":
 		return append(same, struct {
@@ -599,12 +605,23 @@ func genPipeU(r *hx.Rng, depth int, kind string, in any, st *genState) (*pipe, s
 	if depth > 0 && r.Chance(50) {
 		if r.Chance(50) {
 			a, ka := genPipeU(r, depth-1, kind, in, st)
+			if ka == "n" {
+				return a, ka // nothing is stacked on a nil result but a Pipe target
+			}
 			st.tid++
 			ch := hx.Pick(r, trChoices(ka))
+			if ch.k == 105 && !r.Chance(30) {
+				ch = trChoices(ka)[0]
+			}
 			return &pipe{kind: "T", id: st.tid, k: ch.k, a: a}, ch.out
 		}
 		a, ka := genPipeU(r, depth-1, kind, in, st)
-		b, kb := genPipeU(r, depth-1, ka, genValue(r, ka), st)
+		kt := ka
+		if ka == "n" || r.Chance(8) {
+			// the target receives a nil / a value of another kind: its type dispatch must reject it
+			kt = hx.Pick(r, []string{"s", "i", "l", "o"})
+		}
+		b, kb := genPipeU(r, depth-1, kt, genValue(r, kt), st)
 		return &pipe{kind: "P", a: a, b: b}, kb
 	}
 	p := &pipe{kind: "B", tag: st.tag, vk: kind, rng: r}
